@@ -1,6 +1,7 @@
 SPECIFICATION Spec
 CONSTANTS Threads = {"W", "R", "X"}
   Order = "lock-first"
+  ReleaseAt = "after-publish"
   History = FALSE
 INVARIANT NoLostUpdate
 PROPERTY EventuallyDone
